@@ -242,8 +242,8 @@ func run(c *vf.Ctx) {
 	if mc.Violated != "" {
 		c.Broken("M: %s violated in the model", mc.Violated)
 	}
-	if mc.Coverage["Case"] == 0 {
-		c.Broken("M: vacuous")
+	if len(mc.Edges) < 1536 {
+		c.Broken("M: vacuous: only %d cases enumerated", len(mc.Edges))
 	}
 	c.AddModel(mc.Distinct, mc.Generated)
 	c.Stage("M", map[string]any{"distinct": mc.Distinct, "cases": len(mc.Edges)})
